@@ -942,7 +942,10 @@ EXPLANATION = (
     "Invariance of a whole calculation is the composition of links; the links whose access to the geometry is under contract are decided for all "
     "inputs: generator caches never outlive the molecule they were built for (inductive invariant over the integrator's history), the default SDMX "
     "exponent grid depends on the geometry only through pairwise distances, vector features are O(3) scalars, the l=1 ordering conventions are "
-    "consistent, relabelling atoms permutes the indexer's per-atom blocks, the l+1 steps are mutual transposes.  Energies under arbitrary rotations "
+    "consistent, relabelling atoms permutes the indexer's per-atom blocks, the l+1 steps are mutual transposes; the C harmonics recursion equals the "
+    "textbook orthonormal real harmonics (and their tangential gradient) for every degree bound checked, the specification satisfies the addition theorem per degree "
+    "(each degree block transforms orthogonally under O(3)), and SDMXylm_grad accumulates the gradient of the solid harmonics through a Gaunt table whose entries are "
+    "identified with exact algebraic numbers (bounded in lmax, labelled).  Energies under arbitrary rotations "
     "(quadrature error), PySCF's AO values / Becke partition and the convolution chain are assumed links, named in the evidence.")
 TRUSTED = [
     "A1 reals; engine C: int mathematical, double real, libm functions mathematical",
